@@ -77,9 +77,9 @@ func segCountOf(era string) int {
 	if len(found) != 1 {
 		fatal("ledger/%s: %s: expected exactly one common.ValidateBlockBodyHash call, found %d", era, fn, len(found))
 	}
-	if !guarded {
-		fatal("ledger/%s: %s: ValidateBlockBodyHash call is not under `if !cfg.SkipBodyHashValidation`", era, fn)
-	}
+	// which config field guards the call is extracted separately (facts_g10b_gate.go, GV.Gen.BodyGate)
+	// and is a proof obligation (GV.Props.C34.gate_is_body_flag), not an extractor error
+	_ = guarded
 	return found[0]
 }
 
